@@ -687,7 +687,8 @@ def _ecdsa_pool(r, f, focus, max_diff=256):
     add_group(iss.healthy(r, max(1, nh)), None)
   fams = ["msb", "prefix", "postfix", "u2f", "u2f", "weak_key", "invalid_key",
           "unknown_curve", "dup_sig", "hash_lens", "relabelled_key",
-          "close_keys", "close_keys", "multi_fail", "lcg_java", "lcg_gmp"]
+          "close_keys", "close_keys", "multi_fail", "lcg_java", "lcg_gmp",
+          "twins"]
   enabled = set(r.sample(fams, r.randint(0 if focus == "C18" else 1, 4)))
   for kind in ("msb", "prefix", "postfix"):
     if kind in enabled:
@@ -787,6 +788,15 @@ def _ecdsa_pool(r, f, focus, max_diff=256):
     grp = src["issuer"]
     pool.append(src)
     groups[grp]["idx"].append(len(pool) - 1)
+  if "twins" in enabled:
+    # equal r under one issuer key: the malleated twin (r, n - s) and / or a
+    # reused nonce; window- and pair-wise arithmetic on (r, s, z) triples meets
+    # s1 + s2 = 0 and r1 - r2 = 0 (mod n)
+    iss = A.Issuer(r, r.choice(curves), "I%d" % label)
+    arts = iss.twins(r, reuse=r.random() < 0.4)
+    if r.random() < 0.5:
+      arts = arts[:1] + arts[len(arts) // 2:len(arts) // 2 + 1]
+    add_group(arts, None)
   if "hash_lens" in enabled:
     iss = A.Issuer(r, r.choice(curves), "I%d" % label)
     arts = [iss.make(r, r.randrange(1, int(iss.c.n)), "healthy", True,
@@ -1250,3 +1260,37 @@ def directed_plans(prop, profile):
                  "issuer_oracle": True, "oracle": []}],
         "timeout": 600.0}))
   return out
+
+
+def gen_ecdsa_huge(r, tier, f, focus):
+  """More than a thousand single-signature healthy issuers on one curve next
+  to a few biased groups: every per-curve pool inside the nonce checks (guesses
+  to verify, issuer keys, lattice jobs) grows past any internal slice, chunk or
+  round size (a change seeded in round 6 verified guesses in slices of 1024)."""
+  c = _pick_curve(r, [("secp256r1", 3), ("secp224r1", 2), ("secp256k1", 1)])
+  nh = r.randint(2600, 3400) if tier == "quick" else r.randint(1100, 5000)
+  weak = []
+  for g in range(r.randint(4, 6)):
+    iss = A.Issuer(r, c, "W%d" % g)
+    weak += iss.biased(r, r.choice(["msb", "prefix", "postfix"]))
+  pool = list(weak)
+  for h in range(nh):
+    pool += A.Issuer(r, c, "H%d" % h).healthy(r, 1)
+  n = len(pool)
+  w = list(range(len(weak)))
+  reg = lambda name: {"name": name, "how": "registry", "via": "all"}
+  everything = r.sample(range(n), n)
+  ops = [{"op": "check", "check": reg("CheckNonceMSB"), "batch": list(w),
+          "oracle": [{"relation": "plus", "order": list(everything)}]},
+         {"op": "check", "check": reg("CheckNonceGeneralized"),
+          "batch": list(w),
+          "oracle": [{"relation": "plus", "order": r.sample(range(n), n)}]},
+         {"op": "check", "check": reg("CheckNonceCommonPrefix"),
+          "batch": list(everything),
+          "oracle": [{"relation": "perm", "order": r.sample(range(n), n)}]}]
+  return {"engine": "A", "kind": "ecdsa", "profile": "ecdsa_huge",
+          "focus": focus, "knobs": {"clock_seed": r.getrandbits(32),
+                                    "max_diff": 2 ** r.randint(8, 12),
+                                    "denylist": {}},
+          "pool": pool, "initial_annotations": {}, "ops": ops,
+          "timeout": 1500.0}
